@@ -5,9 +5,11 @@ RUN_TARGETS = ['Run/GeomOps.vo']
 TRUSTED = ['hand model coq/Geom/Tri.v tied to triangulate.rs by exact equality of the index lists (only + - * / and comparisons: the float reading is bit-exact)',
            'exact rational oracle props/trioracle.py on implementation output (exploration: completion of the ear search is explored, not proved)']
 ASSUMPTIONS = ['stdlib real-number axioms', 'polygons have fewer than 2^15 vertices (i16/u16 casts in the Rust)']
+def _oracle_line(l):
+    return trioracle.c03_oracle(mathprop.parse_case(l))
 def run(ctx):
     quick = ctx['tier'] == 'quick'
-    n, max_n = (1200, 40) if quick else (30000, 200)
+    n, max_n = (1200, 40) if quick else (30000, 160)
     rc, out = vlib.harness_run(['tri', ctx['seed'], n, max_n], timeout=1800)
     if rc != 0: raise RuntimeError('harness tri failed: ' + out[-2000:])
     lines = [l for l in out.split('\n') if l.startswith('(')]
@@ -17,9 +19,9 @@ def run(ctx):
     verd = vlib.run_shards('C03', mathprop.GEOM_IMPORTS, 'mcase', 'gverdict', lines, per_shard=max(20, len(lines) // 16 + 1), timeout=1700)
     failures = []
     judged = 0
-    for l, v in zip(lines, verd):
+    orc = vlib.pmap(_oracle_line, lines)
+    for l, v, f in zip(lines, verd, orc):
         case = mathprop.parse_case(l)
-        f = trioracle.c03_oracle(case)
         if f is not None: failures.append(f)
         judged += 1
         if v[0] >= 1:
